@@ -74,7 +74,7 @@ class TracesParser:
                 path += event.data
 
             if event.func_qualifier & DgbFuncQual.DBG_FUNC_END.value:
-                yield Vnode(lookup_events, vnodeid, path.replace(b'\x00', b'').decode())
+                yield Vnode(lookup_events, vnodeid, path.replace(b'\x00', b'').decode(errors='backslashreplace'))
                 path = b''
                 vnodeid = 0
                 lookup_events = []
